@@ -690,6 +690,100 @@ def _run_batch(res, item):
         res.observe(out)
 
 
+# ------------------------------------------------------------------------------------------------ batch layouts (orderings)
+_LAYOUT_STATES = (("sunside", 0), ("pen_0.5", 1), ("umbra_axis", 3), ("perpendicular", 4))  # (geometry class, radius index)
+
+
+def _layouts():
+    """Every ordered K-tuple with repeats (K = 2, 3, 4) of states 0..2 + every permutation of states 0..3."""
+    out = []
+    for k in (2, 3, 4):
+        out += list(itertools.product((0, 1, 2), repeat=k))
+    out += [p for p in itertools.permutations((0, 1, 2, 3))]
+    return out
+
+
+def _run_batch_layouts(res, item):
+    """Columns of a (6, K) layout in every order / multiplicity: a batched shortcut that infers something for all columns
+    from some of them (first / last column sunlit -> nobody shadowed, same radius -> same harmonics, ...) shows only when
+    the columns at the inspected places agree while another one differs."""
+    _, e, ei = item
+    label, iso, t, on_grid = e
+    start = datetime.fromisoformat(iso)
+    dt = start + timedelta(seconds=t)
+    sun = fr.body_position(_ref_jd(dt), "sun")
+    model = MODELS[(ei + 2) % 4]
+    degree, order = 4, 4
+    ratio = 0.02
+    bodies = list(fr.BODIES)
+    dyn = _dyn(start, model, degree, order, bodies, True, True, ratio)
+    pool = []
+    for j, (geom, ai) in enumerate(_LAYOUT_STATES):
+        r = _geometry_state(geom, ALT_RADII[ai], sun, j + ei)
+        pool.append(np.concatenate((r, _circ_velocity(r, j + ei))))
+    singles = [dyn._differentialEquation(t, s.copy()) for s in pool]
+    oracle = []
+    for s in pool:
+        terms = _oracle_terms(start, t, s[:3], s[3:], model, degree, order, ratio)
+        want, pert = _expected(terms, bodies, 1, 1)
+        oracle.append((want, _tol_total(terms, pert, on_grid), _norm(terms["pm"]), terms))
+    nus = [o[3]["nu"] for o in oracle]
+    if not (nus[0] == 1.0 and 0.0 < nus[1] < 1.0 and nus[2] == 0.0 and nus[3] == 1.0):
+        raise RuntimeError(f"harness: layout states have visible fractions {nus}")
+    for lay in _layouts():
+        k = len(lay)
+        flat = np.stack([pool[j] for j in lay], axis=1).ravel()  # (6, K) flattened
+        before = flat.copy()
+        res.extra["derivative_evaluations"] = res.extra.get("derivative_evaluations", 0) + k
+        out = dyn._differentialEquation(t, flat)
+        ok_io = bool(np.array_equal(flat, before)) and out.shape == flat.shape and out.dtype == np.float64
+        pattern = "uniform" if len(set(lay)) == 1 else "ends_same_interior_other" if lay[0] == lay[-1] else "mixed"
+        case = {"K": k, "layout": list(lay), "epoch": label, "pattern": pattern}
+        res.case(
+            "batch/layout_input_untouched",
+            case,
+            ok_io,
+            nontrivial=True,
+            signature="C13/batch/input_or_shape",
+            observed={"shape": list(out.shape), "dtype": str(out.dtype)},
+            item=item,
+        )
+        if out.shape != flat.shape:
+            continue
+        out = out.reshape(6, k)
+        bad_single, bad_ref = [], []
+        for col, j in enumerate(lay):
+            want, tol, pmn, terms = oracle[j]
+            # same arithmetic on the same numbers; strided vs contiguous BLAS norm may differ in the last bit
+            if not (fw.maxabs(out[3:, col], singles[j][3:]) <= 8 * EPS * pmn and np.array_equal(out[:3, col], singles[j][:3])):
+                bad_single.append(col)
+            if not _err_total(res, out[3:, col], want, terms, tol) <= tol:
+                bad_ref.append(col)
+        res.case(
+            "batch/layout_columns_equal_single",
+            case,
+            not bad_single,
+            nontrivial=True,
+            signature=f"C13/batch/layout_vs_single/{pattern}",
+            observed={"columns_differing": bad_single, "column": out[:, bad_single[0]] if bad_single else None},
+            expected=singles[lay[bad_single[0]]] if bad_single else "every column == its K=1 evaluation",
+            outcome=("same/" if not bad_single else "differs/") + pattern,
+            item=item,
+        )
+        res.case(
+            "batch/layout_columns_equal_reference",
+            case,
+            not bad_ref,
+            nontrivial=True,
+            signature=f"C13/batch/layout_vs_reference/{pattern}",
+            observed={"columns_differing": bad_ref, "column": out[3:, bad_ref[0]] if bad_ref else None},
+            expected=oracle[lay[bad_ref[0]]][0] if bad_ref else "every column == reference",
+            item=item,
+        )
+        if pattern == "ends_same_interior_other":
+            res.observe(out)
+
+
 # ------------------------------------------------------------------------------------------------ harmonics
 def _harm_positions():
     r0 = fr.R_EARTH
@@ -1296,6 +1390,268 @@ def _run_ephem_analytic(res, item):
                     item=item,
                 )
     res.observe(pos["sun"], pos["moon"])
+
+
+# ------------------------------------------------------------------------------------------------ batched epochs
+# getPosition() / getSegmentPosition() accept N epochs and document "the position vectors at each Julian date": every row
+# of a batched evaluation must equal the single-epoch evaluation, whatever the order, multiplicity or container of the
+# epochs (a batched path that infers "one coefficient set for all" from some of the elements - first/last, first/middle/
+# last, a time-ordered assumption - is only visible on arrays that are not time-ordered).
+# Pool: days relative to a 32-day kernel edge E (an edge of every 4/8/16/32-day series).  For every series length the pool
+# holds epochs of the same series and of neighbouring / far series:  4 d: {-1,-ulp | 0,+84s,1,3 | 5 | 9 | 15 | 17 | 33},
+# 8 d: {.. | 0..5 | 9,15 | 17}, 16 d: {-20 | -1,-ulp | 0..15 | 17 | 33}, 32 d: {-20,-1,-ulp | 0..17 | 33}, and 400.25 d on.
+BATCH_OFFS_QUICK = (-20.0, -1.0, -JD_ULP, 0.0, DELTA_DAYS, 1.0, 3.0, 5.0, 9.0, 15.0, 17.0, 33.0, 400.25)
+BATCH_OFFS_EXTRA = (-33.0, -17.0, JD_ULP, 2.0, 4.0 - JD_ULP, 4.0, 7.0, 8.0, 16.0 - DELTA_DAYS, 16.0, 31.0, 32.0)
+BATCH_SUB4 = (-1.0, 0.0, 1.0, 5.0, 17.0)  # 4 d: -1 | 0 1 | 5 | 17;  8, 16 d: -1 | 0 1 5 | 17;  32 d: -1 | 0 1 5 17
+BATCH_SUB3 = (-1.0, 1.0, 33.0)  # three different series of every length
+BATCH_CONTAINERS = ("tuple", "ndarray", "ndarray_strided_view", "ndarray_reversed_view")
+
+
+def _batch_offsets(tier):
+    return BATCH_OFFS_QUICK + (BATCH_OFFS_EXTRA if tier == "thorough" else ())
+
+
+def _batch_targets():
+    return list(fr.BODIES) + [f"segment:{k}" for k in range(14)]
+
+
+_BATCH_ARRAYS = {}
+
+
+def _batch_arrays(n):
+    """[(family, container, pool indices)] - every enumerated array over a pool of n epochs."""
+    if n in _BATCH_ARRAYS:
+        return _BATCH_ARRAYS[n]
+    out = []
+    full = list(range(n))
+    for k in (1, 2, 3):
+        out += [(f"tuples_{k}", "list", idx) for idx in itertools.product(full, repeat=k)]
+    sub4 = [BATCH_OFFS_QUICK.index(o) for o in BATCH_SUB4]
+    sub3 = [BATCH_OFFS_QUICK.index(o) for o in BATCH_SUB3]
+    out += [("tuples_4_subpool", "list", idx) for idx in itertools.product(sub4, repeat=4)]
+    out += [("tuples_5_subpool", "list", idx) for idx in itertools.product(sub3, repeat=5)]
+    asc = tuple(sorted(full, key=lambda i: _batch_offsets("thorough")[i]))
+    out.append(("pool_ascending", "list", asc))
+    out.append(("pool_descending", "list", asc[::-1]))
+    out += [("pool_rotated", "list", asc[k:] + asc[:k]) for k in range(1, n)]
+    out += [("pool_rotated_descending", "list", (asc[::-1])[k:] + (asc[::-1])[:k]) for k in range(1, n)]
+    out.append(("pool_interleaved", "list", asc[0::2] + asc[1::2]))
+    out.append(("pool_palindrome", "list", asc + asc[::-1]))
+    out.append(("pool_twice", "list", asc + asc))
+    out.append(("pool_each_doubled", "list", tuple(i for i in asc for _ in (0, 1))))
+    for cont in BATCH_CONTAINERS:
+        for k in (1, 2, 3):
+            out += [(f"containers_{k}", cont, idx) for idx in itertools.product(sub4, repeat=k)]
+    for cont in ("ndarray_0d", "numpy_scalar", "float"):
+        out += [("containers_scalar", cont, (i,)) for i in full]
+    _BATCH_ARRAYS[n] = out
+    return out
+
+
+def _batch_container(cont, vals):
+    """The epochs `vals` in the named container (+ a copy to compare with after the call, or None)."""
+    if cont == "list":
+        return list(vals), list(vals)
+    if cont == "tuple":
+        return tuple(vals), None
+    if cont == "ndarray":
+        a = np.array(vals, dtype=float)
+        return a, a.copy()
+    if cont == "ndarray_strided_view":
+        base = np.empty(2 * len(vals))
+        base[0::2] = vals
+        base[1::2] = vals[::-1]  # valid epochs in between, never to be used
+        a = base[::2]
+        return a, a.copy()
+    if cont == "ndarray_reversed_view":
+        a = np.array(vals[::-1], dtype=float)[::-1]
+        return a, a.copy()
+    if cont == "ndarray_0d":
+        return np.array(vals[0]), None
+    if cont == "numpy_scalar":
+        return np.float64(vals[0]), None
+    if cont == "float":
+        return float(vals[0]), None
+    raise ValueError(cont)
+
+
+def _order_class(vals):
+    if len(vals) == 1:
+        return "single"
+    d = [b - a for a, b in zip(vals[:-1], vals[1:])]
+    if all(x > 0 for x in d):
+        return "ascending"
+    if all(x < 0 for x in d):
+        return "descending"
+    if len(set(vals)) < len(vals):
+        return "repeats_monotonic" if all(x >= 0 for x in d) or all(x <= 0 for x in d) else "repeats_unordered"
+    return "unordered"
+
+
+def _series_pattern(series_of, idx):
+    """Which Chebyshev series (own index arithmetic, per segment of the target) the epochs of the array fall in."""
+    if len(idx) == 1:
+        return "single"
+    pats = set()
+    for per_seg in series_of:
+        ser = [per_seg[i] for i in idx]
+        if len(set(ser)) == 1:
+            pats.add("one")
+        elif ser[0] == ser[-1]:
+            pats.add("ends")
+        else:
+            pats.add("several")
+    if "ends" in pats:
+        return "ends_same_series_interior_other"
+    return "several_series" if "several" in pats else "one_series"
+
+
+def _run_ephem_batch(res, item):
+    _, target, seed, tier = item
+    edge = _seed_edge32(seed)
+    jds = [edge + o for o in _batch_offsets(tier)]
+    if target.startswith("segment:"):
+        seg = tb_mod.TBK(int(target.split(":")[1]))
+        key = TBK_NAIF[seg.name]
+        segs = [key]
+        lib_coeff = tb_mod.THIRD_BODY_EPHEMS[seg.value][2]
+        # same tolerance as ephemeris/segment
+        tol_ref = 1e-13 * max(1.0, float(np.max(np.abs(lib_coeff[:, :, 0])))) + 1e-9
+
+        def lib(x, seg=seg):
+            return tb_mod.getSegmentPosition(x, seg)
+
+        def ref(jd, key=key):
+            return fr.segment_position(jd, key[0], key[1])
+
+        name = seg.name
+    else:
+        segs = fr.body_segments(target)
+        tol_ref = 1e-4  # km, same as ephemeris/chebyshev (own evaluation of three summed series)
+        lib = LIB_BODY[target].getPosition
+
+        def ref(jd, target=target):
+            return fr.body_position(jd, target)
+
+        name = target
+    # own series index of every pool epoch in every segment the target is composed of
+    series_of = []
+    for c, t in segs:
+        jd0, interval, count, _ = fr.segment_info(c, t)
+        series_of.append([int(math.floor((jd - jd0) / interval)) for jd in jds])
+        if not all(0 <= k < count for k in series_of[-1]):
+            raise RuntimeError("harness: batched-epoch pool leaves the kernel")
+    if target not in ("segment:12", "segment:13"):  # (those two have one series for the whole kernel span)
+        # the pool must offer, for this target, same-series pairs as well as different-series epochs
+        if len(set(series_of[0])) < 3 or len(set(series_of[0])) == len(jds):
+            raise RuntimeError("harness: batched-epoch pool does not mix same-series and other-series epochs")
+    scalar, refs = [], []
+    for i, jd in enumerate(jds):
+        sc = np.array(lib(jd), dtype=float)
+        rf = np.asarray(ref(jd), dtype=float)
+        scalar.append(sc)
+        refs.append(rf)
+        err = fw.maxabs(sc, rf) if sc.shape == (3,) else float("inf")
+        res.case(
+            "ephemeris/batch_pool_scalar",
+            {"target": name, "jd": jd, "offset_days": jd - edge},
+            bool(err <= tol_ref),
+            nontrivial=True,
+            signature=f"C13/ephem/batch/pool_scalar/{name}",
+            observed=sc,
+            expected=rf,
+            item=item,
+        )
+    res.observe(np.array(scalar))
+    scale_fn = getattr(tb_mod, "_scaleChebyshevInputs", None) if target.startswith("segment:") else None
+    if scale_fn is not None:
+        jd0, interval, _, _ = fr.segment_info(*segs[0])
+        scaled = [scale_fn(jd, jd0, interval) for jd in jds]
+    for family, cont, idx in _batch_arrays(len(jds)):
+        vals = [jds[i] for i in idx]
+        arg, keep = _batch_container(cont, vals)
+        order = _order_class(vals)
+        pattern = _series_pattern(series_of, idx)
+        scalar_like = cont in ("ndarray_0d", "numpy_scalar", "float")
+        case = {"target": name, "family": family, "container": cont, "pool_indices": list(idx),
+                "offsets_days": [v - edge for v in vals], "order": order, "series": pattern}
+        try:
+            out = lib(arg)
+        except Exception as exc:  # noqa: BLE001
+            res.case(
+                "ephemeris/batch_rows_vs_scalar",
+                case,
+                False,
+                nontrivial=len(idx) >= 2,
+                signature=f"C13/ephem/batch/exception/{name}/{cont}/{type(exc).__name__}",
+                observed=f"{type(exc).__name__}: {exc}"[:300],
+                item=item,
+            )
+            continue
+        out = np.asarray(out)
+        want_shape = (3,) if scalar_like else (len(idx), 3)
+        untouched = True
+        if keep is not None:
+            untouched = len(arg) == len(keep) and all(float(a) == float(b) for a, b in zip(arg, keep))
+        ok_shape = out.shape == want_shape and out.dtype == np.float64 and untouched
+        res.case(
+            "ephemeris/batch_shape_and_input",
+            case,
+            bool(ok_shape),
+            nontrivial=len(idx) >= 2,
+            signature=f"C13/ephem/batch/shape_or_input/{name}/{cont}",
+            observed={"shape": list(out.shape), "dtype": str(out.dtype), "input_untouched": untouched},
+            expected={"shape": list(want_shape), "dtype": "float64"},
+            item=item,
+        )
+        if out.shape != want_shape:
+            continue
+        rows = out.reshape(len(idx), 3)
+        bad = [k for k, i in enumerate(idx) if not np.array_equal(rows[k], scalar[i])]
+        errs = [fw.maxabs(rows[k], refs[i]) for k, i in enumerate(idx)]
+        worst = int(np.argmax(errs))
+        # rows are the same arithmetic on the same numbers as the single-epoch call (as ephemeris/vector_path: bitwise)
+        res.case(
+            "ephemeris/batch_rows_vs_scalar",
+            case,
+            not bad,
+            nontrivial=len(idx) >= 2,
+            signature=f"C13/ephem/batch/rows_vs_scalar/{name}/{pattern}",
+            observed={"rows_differing": bad[:6], "row": rows[bad[0]] if bad else None,
+                      "err_km": fw.maxabs(rows[bad[0]], scalar[idx[bad[0]]]) if bad else 0.0},
+            expected={"row": scalar[idx[bad[0]]]} if bad else "each row == single-epoch evaluation",
+            outcome=f"{'same' if not bad else 'differs'}/{order}/{pattern}",
+            item=item,
+        )
+        res.case(
+            "ephemeris/batch_rows_vs_reference",
+            case,
+            bool(errs[worst] <= tol_ref) and bool(np.all(np.isfinite(rows))),
+            nontrivial=len(idx) >= 2,
+            signature=f"C13/ephem/batch/rows_vs_reference/{name}/{pattern}",
+            observed={"worst_row": worst, "err_km": errs[worst], "row": rows[worst]},
+            expected={"row": refs[idx[worst]], "tol_km": tol_ref},
+            outcome="agree" if errs[worst] <= tol_ref else "differ",
+            item=item,
+        )
+        if family in ("pool_palindrome", "pool_descending") or (family == "tuples_3" and idx[0] == idx[2]):
+            res.observe(rows)
+        if scale_fn is not None and not scalar_like and cont in ("list", "ndarray"):
+            xs, ks = scale_fn(arg, jd0, interval)
+            ok = np.shape(xs) == (len(idx),) and np.shape(ks) == (len(idx),) and all(
+                float(xs[k]) == float(scaled[i][0]) and int(ks[k]) == int(scaled[i][1])
+                for k, i in enumerate(idx)
+            )
+            res.case(
+                "ephemeris/batch_scale_inputs",
+                case,
+                bool(ok),
+                nontrivial=len(idx) >= 2,
+                signature=f"C13/ephem/batch/scale_inputs/{name}/{pattern}",
+                observed={"x": np.asarray(xs), "idx": np.asarray(ks)},
+                expected={"x": [float(scaled[i][0]) for i in idx], "idx": [int(scaled[i][1]) for i in idx]},
+                item=item,
+            )
 
 
 # ------------------------------------------------------------------------------------------------ constants
